@@ -42,7 +42,7 @@ def TIMEOUT(tier):
     return 900 if tier == "quick" else 5400
 
 
-SCENARIOS = ["S0", "S1", "S2", "S3", "S4", "S5"]
+SCENARIOS = ["S0", "S1", "S2", "S3", "S4", "S5", "S6", "S7"]
 
 
 def gen_cases(tier, seed):
@@ -52,7 +52,7 @@ def gen_cases(tier, seed):
         for sc in ("S0", "S1", "S2", "S3"):
             cases.append({"kind": "sched", "mode": mode, "scenario": sc, "n": 2, "strategy": "dfs", "p": 3 if thorough else (3 if sc == "S0" else 2), "seed": seed,
                           "budget": 600 if thorough else 40})
-        for sc in ("S4", "S5"):
+        for sc in ("S4", "S5", "S6", "S7"):
             cases.append({"kind": "sched", "mode": mode, "scenario": sc, "n": 2, "strategy": "dfs", "p": 2 if thorough else 1, "seed": seed,
                           "budget": 400 if thorough else 40})
         npct = 20000 if thorough else 400
@@ -129,6 +129,18 @@ class Run:
         elif scenario in ("S4", "S5"):
             b = self.task(2).invocation_id
             self.ids["b"] = b
+        elif scenario == "S6":
+            # retries: the body fails once with a retriable error, the invocation is re-queued and claimed again
+            basic.ATTEMPTS.clear()
+            flaky = app.task(basic.flaky, max_retries=2)
+            app.broker.purge()
+            self.ids = {"a": flaky(1, 5).invocation_id, "b": flaky(0, 6).invocation_id}
+        elif scenario == "S7":
+            # running concurrency control with re-routing: two invocations of one TASK-controlled task
+            from pynenc.conf.config_task import ConcurrencyControlType
+            cc = app.task(basic.probed_keyed, running_concurrency=ConcurrencyControlType.TASK, reroute_on_concurrency_control=True)
+            app.broker.purge()
+            self.ids = {"a": cc(1, 1).invocation_id, "b": cc(1, 2).invocation_id}
         self.n = n
         from vlib.apps import flush_history
         flush_history(app)  # setup-time history writers are real threads: let them finish before the controlled run starts
@@ -168,6 +180,9 @@ class Run:
                 return body
             for i in range(self.n):
                 sc.spawn(f"claimer{i}", claimer(i))
+        elif self.scenario in ("S6", "S7"):
+            for i in range(self.n):
+                sc.spawn(f"poller{i}", self.poller(i, k=2, rounds=3))
         elif self.scenario in ("S1", "S2", "S3"):
             for i in range(self.n):
                 sc.spawn(f"poller{i}", self.poller(i, rounds=1 if self.scenario != "S2" else 2))
